@@ -1061,6 +1061,11 @@ class Engine:
             names_ = [ast.unparse(e_) for e_ in n.args[1].elts]
             prim = {'int': INT, 'float': REAL, 'str': STR, 'bool': BOOL}
             return mk_bool(any(prim.get(x) == v.ty or (x == 'int' and v.ty == BOOL) for x in names_))
+        if isinstance(n.args[1], ast.Tuple) and isinstance(v.ty, (TDict, TList, TBag)):
+            # a dictionary / list value against a tuple of classes: an instance only of its own container class
+            names_ = [ast.unparse(e_) for e_ in n.args[1].elts]
+            own = ('Dict', 'dict') if isinstance(v.ty, TDict) else ('List', 'list')
+            return mk_bool(any(x in own for x in names_))
         if tn in ('Dict', 'dict'):
             if isinstance(v.ty, TOpt) and isinstance(v.ty.inner, TDict):
                 return V(BOOL, z3.Not(v.ty.is_none(v.t)))
